@@ -125,7 +125,8 @@ def composite_part(rng, tier, crate="outputs12", limit=None):
     try:
         types = [t for t in C17.gen_types(rng, "quick" if tier == "quick" else "thorough") if has_owned_under_container(t)]
         infos = [i for i in C17.analyse_types(types) if i["kind"].split("<")[0] in ("Deep", "Shallow") or not i["accept"]]
-        infos.sort(key=lambda i: -C17.depth(i["ty"]))
+        fam = {C17.rust_ty(t) for t in C17.depth2_family()}
+        infos.sort(key=lambda i: (i["rust"] not in fam, -C17.depth(i["ty"])))       # the systematic depth-2 family first, then the deepest
         infos = infos[:limit or (90 if tier == "quick" else 300)]
         binary, acc, mism = C17.build_accepted(infos)
         cases = []
